@@ -15,6 +15,8 @@ RULE = ("case = (knot vector p<=5, optional positive weights, number type, probe
 ANCHORS = ["BasisFunction.speval_matrix", "FunctionEvaluator.__compute_vector_spline", "FunctionEvaluator.__compute_vector",
            "IndexableFunction.__getitem__"]
 ASSUMPTIONS = ["float / int-knot classes judged to relative 1e-9 on well-conditioned vectors only"]
+ENUMERATED = {"quick": (300, "all 300 multiplicity patterns of degree <= 4 with <= 3 interior knots, every j <= p"),
+              "thorough": (1200, "all 300 multiplicity patterns of degree <= 4 with <= 3 interior knots x 4 number classes, every j <= p")}
 
 from .c01 import all_patterns
 
